@@ -86,6 +86,51 @@ def xyJToMn (j : Int) : Int × Int :=
 
 def mnToXyJ (a b : Int) : Int := tri (a + b) + b + 1
 
+/-! ## names of the orders and pairing of the ±m terms (session 3) -/
+
+/-- ordinal ("Primary" = 1, "Secondary" = 2, …) of a non-rotationally-symmetric term, `_name_accessor` for `m ≠ 0`:
+    the position of `n` in the column `|m|` (`n = |m|, |m|+2, …`), except that the odd columns start counting at `n = 3`
+    (`n = 1` is tilt, so primary coma is `(3, ±1)`; prysm counts every odd column like the coma column) -/
+def nameAccessor (n m : Int) : Int :=
+  if m % 2 = 1 then (n - 1) / 2 else (n - iabs m) / 2 + 1
+
+/-- ordinal of a spherical term `(n, 0)`, `n ≥ 4` (`Primary Spherical` is `n = 4`) -/
+def sphericalAccessor (n : Int) : Int := n / 2 - 1
+
+/-- structure of `nm_to_name (n, m)`: (kind, ordinal, |m| of the name table, suffix) with
+    kind 0 `Piston`, 1 `Tilt`, 2 `Defocus`, 3 `<ordinal> Spherical`, 4 `<ordinal> <name of |m|> <suffix>`;
+    suffix 0 `X`, 1 `Y`, 2 `00°`, 3 `45°`, 4 none -/
+def nameKey (n m : Int) : Int × Int × Int × Int :=
+  if n = 0 then (0, 0, 0, 4)
+  else if n = 1 then (1, 0, 1, if 0 ≤ m then 0 else 1)
+  else if m = 0 then (if n = 2 then (2, 0, 0, 4) else (3, sphericalAccessor n, 0, 4))
+  else (4, nameAccessor n m, iabs m, (if m % 2 = 1 then 0 else 2) + (if 0 ≤ m then 0 else 1))
+
+/-- number of blank-separated words of a name, by kind (`Piston`, `Tilt X`, `Defocus`, `<ordinal> Spherical`,
+    `<ordinal> <column word> <suffix>`); the ordinal and column words contain no blank (`names_words_have_no_blank`) -/
+def nameWords (kind : Int) : Int :=
+  if kind = 0 then 1 else if kind = 1 then 2 else if kind = 2 then 1 else if kind = 3 then 2 else 3
+
+/-- key under which `zernikes_to_magnitude_angle_nmkey` collects the `+m` and `-m` terms -/
+def magangKey (n m : Int) : Int × Int := (n, iabs m)
+
+/-- the `magangKey`s of a coefficient list in order of first appearance (the insertion order of the `defaultdict`) -/
+def firstKeys : List (Int × Int) → List (Int × Int)
+  | [] => []
+  | p :: rest => magangKey p.1 p.2 :: (firstKeys rest).filter (fun k => k ≠ magangKey p.1 p.2)
+
+/-- the positions of the list whose term has key `k`, ascending (the order in which `append` sees them: the first member of
+    a pair is the first argument of `arctan2`) -/
+def positionsOf (l : List (Int × Int)) (k : Int × Int) : List Nat :=
+  (List.range l.length).filter fun i => match l[i]? with
+    | some p => magangKey p.1 p.2 = k
+    | none => false
+
+/-- what `zernikes_to_magnitude_angle_nmkey` groups: one entry per key, in order of first appearance, with the positions of its terms
+    (written as a specification — quadratic — not as the dict algorithm) -/
+def groupByKey (l : List (Int × Int)) : List ((Int × Int) × List Nat) :=
+  (firstKeys l).map fun k => (k, positionsOf l k)
+
 /-! ## run-time of the translated Python fragments -/
 namespace Py
 
